@@ -1,3 +1,374 @@
 import LocustModel.Proto
-/- Driver stub for C05 (replaced when the property's model is built). -/
-def main : IO Unit := LM.Proto.runDriver fun _ => "?\t?"
+import LocustModel.Query.SqlProto
+import LocustModel.Query.Merge
+import LocustModel.Query.Order
+import LocustModel.Query.OrderFused
+/-
+  Driver for C05.  One output line `<model> TAB <spec>` per input line; the LAST token of every
+  input line is the implementation's output (the specification is a relation and judges it).
+
+  unit level (i64 keys, `a`/`d` = CmpLessThan / CmpGreaterThan):
+    merge <a|d> <left> <right> <limit> <impl>                     impl: keys|ops
+    mkeep <ops> <left> <right> <impl>                             impl: vals | panic
+    part  <a|d> <left> <right> <limit> <impl>                     impl: gl:gr,…
+    subpart <a|d> <groups> <left> <right> <impl>                  impl: gl:gr,… | panic
+    mpart <a|d> <groups> <left> <right> <limit> <impl>            impl: keys|ops | panic
+    heap  <a|d> <keys> <vals> <key> <val> <impl>                  impl: keys|vals
+    mk    <dirs> <limit> <k> <L1> … <Lk> <R1> … <Rk> <impl>       impl: col1|…|colk|ops   (batch_merging sort branch, k ≥ 2)
+  API level:
+    q <where|-> <limit|_> <offset> <parts> <nsel> <sel rpn>… <nkeys> <rpn:a|d>… <ncols> <col cells>… <impl>
+        the select list is `id, key1 … keyk, extras`; impl: rows:… | err:<kind> | panic | hang
+-/
+namespace LM.DrvC05
+open LM LM.Proto LM.Sql LM.SqlProto LM.OrderSpec LM.Order LM.OrderFused
+
+def parseInts (s : String) : Option (List Int) := parseList parseInt? s
+def parseNats (s : String) : Option (List Nat) := parseList parseNat? s
+def showInts (l : List Int) : String := showList showInt l
+def showNats (l : List Nat) : String := showList toString l
+
+def parseGroups (s : String) : Option (List (Nat × Nat)) :=
+  parseList (fun t => match t.splitOn ":" with
+    | [a, b] => do pure ((← a.toNat?), (← b.toNat?))
+    | _ => none) s
+def showGroups (g : List (Nat × Nat)) : String := showList (fun p => s!"{p.1}:{p.2}") g
+
+def parseDir (s : String) : Option Bool := if s = "a" then some false else if s = "d" then some true else none
+
+def icmp (desc : Bool) : Int → Int → Bool := Merge.cmpEq desc
+
+/-- The stable reference sort as the driver's instance of `sort_unstable_by` (used only where the
+    result does not depend on the choice). -/
+def usortDet : USort := fun le l => isort le l
+
+def adjacentTie {α : Type} (le : α → α → Bool) : List α → Bool
+  | a :: b :: l => eqv le a b || adjacentTie le (b :: l)
+  | _ => false
+
+/-! ### unit level -/
+
+def okBad (b : Bool) (why : String) : String := if b then "OK" else "BAD " ++ why
+
+def stepMerge (d l r lim impl : String) : String :=
+  match parseDir d, parseInts l, parseInts r, lim.toNat? with
+  | some desc, some l, some r, some n =>
+      let (m, o) := merge (icmp desc) l r n
+      let model := showInts m ++ "|" ++ showNats o
+      let spec :=
+        if sortedB (icmp desc) l && sortedB (icmp desc) r then
+          match impl.splitOn "|" with
+          | [ks, os] =>
+            (match parseInts ks, parseNats os with
+             | some ks, some os =>
+                okBad (ks == (isort (icmp desc) (l ++ r)).take n && mergeKeep os l r == some ks) "merge-not-sorted-prefix"
+             | _, _ => "BAD unparsable")
+          | _ => "BAD " ++ impl
+        else "SKIP"
+      model ++ "\t" ++ spec
+  | _, _, _, _ => "bad-op\tbad-op"
+
+def stepMkeep (ops l r : String) : String :=
+  match parseNats ops, parseInts l, parseInts r with
+  | some ops, some l, some r =>
+      (match mergeKeep ops l r with
+       | some v => showInts v
+       | none => "panic") ++ "\tSKIP"
+  | _, _, _ => "bad-op\tbad-op"
+
+/-- Specification of one partitioning step on sorted inputs: the groups are consecutive runs of one key value each
+    (the same value on both sides), strictly increasing from group to group; they stop exactly when the
+    `max(left,right)` account reaches the (u32-clamped) limit or everything is covered. -/
+def partitionOk (le : Int → Int → Bool) (l r : List Int) (limit : Nat) (g : List (Nat × Nat)) : Bool :=
+  let lim := min limit U32_MAX
+  let rec go (g : List (Nat × Nat)) (l r : List Int) (acc : Nat) (prev : Option Int) : Bool :=
+    match g with
+    | [] => decide (acc ≥ lim) || (l.isEmpty && r.isEmpty)
+    | (gl, gr) :: gs =>
+        let sl := l.take gl
+        let sr := r.take gr
+        match (sl ++ sr).head? with
+        | none => false                                         -- empty group
+        | some v =>
+          decide (acc < lim) && decide (sl.length = gl) && decide (sr.length = gr)
+            && (sl ++ sr).all (· == v)
+            && (match prev with | some p => le p v && !le v p | none => true)
+            && (match l.drop gl with | x :: _ => x != v | [] => true)      -- the run is maximal
+            && (match r.drop gr with | x :: _ => x != v | [] => true)
+            && go gs (l.drop gl) (r.drop gr) (acc + max gl gr) (some v)
+  go g l r 0 none
+
+def stepPart (d l r lim impl : String) : String :=
+  match parseDir d, parseInts l, parseInts r, lim.toNat? with
+  | some desc, some l, some r, some n =>
+      let spec :=
+        if sortedB (icmp desc) l && sortedB (icmp desc) r then
+          match parseGroups impl with
+          | some g => okBad (partitionOk (icmp desc) l r n g) "partition-groups"
+          | none => "BAD " ++ impl
+        else "SKIP"
+      showGroups (partition (icmp desc) l r n) ++ "\t" ++ spec
+  | _, _, _, _ => "bad-op\tbad-op"
+
+def stepSubpart (d g l r : String) : String :=
+  match parseDir d, parseGroups g, parseInts l, parseInts r with
+  | some desc, some g, some l, some r =>
+      (match subpartition (icmp desc) g l r with
+       | some g' => showGroups g'
+       | none => "panic") ++ "\tSKIP"
+  | _, _, _, _ => "bad-op\tbad-op"
+
+def stepMpart (d g l r lim : String) : String :=
+  match parseDir d, parseGroups g, parseInts l, parseInts r, lim.toNat? with
+  | some desc, some g, some l, some r, some n =>
+      (match mergePartitioned (icmp desc) g l r n with
+       | some (m, o) => showInts m ++ "|" ++ showNats o
+       | none => "panic") ++ "\tSKIP"
+  | _, _, _, _, _ => "bad-op\tbad-op"
+
+/-- Heap with the worst key at the root: every child may come before its parent. -/
+def isHeap (le : Int → Int → Bool) (keys : List Int) : Bool :=
+  (List.range keys.length).all fun i =>
+    i == 0 || (match keys[i]?, keys[(i - 1) / 2]? with
+               | some c, some p => le c p
+               | _, _ => false)
+
+def stepHeap (d ks vs k v impl : String) : String :=
+  match parseDir d, parseInts ks, parseNats vs, k.toInt?, v.toNat? with
+  | some desc, some keys, some vals, some key, some val =>
+      let le := icmp desc
+      let h' := heapReplace le keys.length (keys.zip vals) (key, val) 0
+      let model := showInts (h'.map (·.1)) ++ "|" ++ showNats (h'.map (·.2))
+      let spec :=
+        match keys.head? with
+        | some k0 =>
+          if isHeap le keys && Order.lt le key k0 && keys.length == vals.length then
+            match impl.splitOn "|" with
+            | [ks', vs'] =>
+              (match parseInts ks', parseNats vs' with
+               | some ks', some vs' =>
+                  let old := (keys.zip vals).drop 1
+                  let new := ks'.zip vs'
+                  okBad (isHeap le ks' && ks'.length == keys.length && vs'.length == keys.length
+                         && (msub new ((key, val) :: old)) == some []) "heap-replace"
+               | _, _ => "BAD unparsable")
+            | _ => "BAD " ++ impl
+          else "SKIP"
+        | none => "SKIP"
+      model ++ "\t" ++ spec
+  | _, _, _, _, _ => "bad-op\tbad-op"
+
+/-- batch_merging sort branch on k ≥ 2 integer key columns, at column level. -/
+def stepMk (dirs lim : String) (k : Nat) (cols : List String) (impl : String) : String :=
+  match dirs.toList.mapM (fun c => parseDir (String.singleton c)), lim.toNat?, cols.mapM parseInts with
+  | some ds, some n, some cs =>
+      if ds.length ≠ k ∨ cs.length ≠ 2 * k ∨ k < 2 then "bad-op\tbad-op" else
+      let L := cs.take k
+      let R := cs.drop k
+      let d1 := ds.headD false
+      let dk := ds.getLastD false
+      let g0 := partition (icmp d1) (L.headD []) (R.headD []) n
+      let mids := ((ds.zip (L.zip R)).drop 1).dropLast
+      let g := mids.foldlM (fun g (x : Bool × List Int × List Int) => subpartition (icmp x.1) g x.2.1 x.2.2) g0
+      let model : String :=
+        match g with
+        | none => "panic"
+        | some g =>
+          match mergePartitioned (icmp dk) g (L.getLastD []) (R.getLastD []) n with
+          | none => "panic"
+          | some (m, ops) =>
+            match ((L.zip R).dropLast).mapM (fun (x : List Int × List Int) => mergeKeep ops x.1 x.2) with
+            | none => "panic"
+            | some kept => "|".intercalate ((kept ++ [m]).map showInts ++ [showNats ops])
+      -- specification: rows of the lexicographically sorted union, left first on full ties
+      let nl := (L.headD []).length
+      let nr := (R.headD []).length
+      let rowsOf (C : List (List Int)) (len : Nat) : List (List Int) :=
+        (List.range len).map fun i => C.map fun c => c.getD i 0
+      let cmps : List (List Int → List Int → Bool) :=
+        (List.range k).map fun i => fun a b => icmp (ds.getD i false) (a.getD i 0) (b.getD i 0)
+      let lex := lexOf cmps
+      let lrows := rowsOf L nl
+      let rrows := rowsOf R nr
+      let spec :=
+        if sortedB lex lrows && sortedB lex rrows && L.all (·.length == nl) && R.all (·.length == nr) then
+          let want := (isort lex (lrows ++ rrows)).take n
+          let wantCols := (List.range k).map fun i => want.map fun row => row.getD i 0
+          let got := (impl.splitOn "|").take k
+          okBad (got == wantCols.map showInts) "not-lexicographic-merge-prefix"
+        else "SKIP"
+      model ++ "\t" ++ spec
+  | _, _, _ => "bad-op\tbad-op"
+
+/-! ### API level -/
+
+structure KeySpec where
+  expr : Expr
+  desc : Bool
+  isConst : Bool
+
+def exprHasCol : Expr → Bool
+  | .col _ => true
+  | .lit _ => false
+  | .cmp _ l r => exprHasCol l || exprHasCol r
+  | .and l r => exprHasCol l || exprHasCol r
+  | .or l r => exprHasCol l || exprHasCol r
+  | .not e => exprHasCol e
+  | .isNull e => exprHasCol e
+  | .isNotNull e => exprHasCol e
+  | .arith _ l r => exprHasCol l || exprHasCol r
+
+def exprCols : Expr → List Nat
+  | .col i => [i]
+  | .lit _ => []
+  | .cmp _ l r => exprCols l ++ exprCols r
+  | .and l r => exprCols l ++ exprCols r
+  | .or l r => exprCols l ++ exprCols r
+  | .not e => exprCols e
+  | .isNull e => exprCols e
+  | .isNotNull e => exprCols e
+  | .arith _ l r => exprCols l ++ exprCols r
+
+/-- Columns that occur below an arithmetic operator. -/
+def arithCols : Expr → List Nat
+  | .col _ => []
+  | .lit _ => []
+  | .cmp _ l r => arithCols l ++ arithCols r
+  | .and l r => arithCols l ++ arithCols r
+  | .or l r => arithCols l ++ arithCols r
+  | .not e => arithCols e
+  | .isNull e => arithCols e
+  | .isNotNull e => arithCols e
+  | .arith _ l r => exprCols l ++ exprCols r
+
+def parseKey (s : String) : Option KeySpec :=
+  match s.splitOn ":" with
+  | [rpn, d] => do
+      let e ← parseExpr rpn
+      let desc ← parseDir d
+      pure ⟨e, desc, !exprHasCol e⟩
+  | _ => none
+
+def evalCells (es : List Expr) (r : Row) : Option (List Val) :=
+  es.mapM fun e => match eval i2fNative e r with
+    | .val v => some v
+    | _ => none
+
+def splitParts {α : Type} : List Nat → List α → List (Nat × List α)
+  | [], _ => []
+  | n :: ns, l => (n, l.take n) :: splitParts ns (l.drop n)
+
+def leftTree {β : Type} : List (Nat × List β) → Option (PTree β)
+  | [] => none
+  | p :: ps => some (ps.foldl (fun t q => .node t (.leaf q.1 q.2)) (.leaf p.1 p.2))
+
+def stepQuery (wh lim off parts : String) (sel : List String) (keys : List String) (cols : List String)
+    (impl : String) : String :=
+  let (partsTok, bsTok) := match parts.splitOn "@" with
+    | [p, b] => (p, b)
+    | _ => (parts, "1024")
+  match parseOptExpr wh, (if lim = "_" then some U64_MAX else lim.toNat?), off.toNat?, parseNats partsTok,
+        sel.mapM parseExpr, keys.mapM parseKey, cols.mapM parseCells with
+  | some wh, some limit, some offset, some parts, some sel, some keysAll, some cs =>
+      let batchSize := (bsTok.toNat?).getD 1024
+      -- Query::normalize (after the fix): keys without column references cannot influence the order and are dropped
+      let keys := keysAll.filter (!·.isConst)
+      let n := (cs.head?.map List.length).getD 0
+      let rows := transpose cs n
+      -- arithmetic on a column that is entirely NULL in some partition: the engine types that partition's
+      -- column as Null and rejects the expression with a TypeError VALUE (outside the fragment; C06's domain)
+      let acols := ((wh.toList ++ sel ++ keys.map (·.expr)).flatMap arithCols).eraseDups
+      let typeDivergent := (splitParts parts rows).any fun p =>
+        !p.2.isEmpty && acols.any fun c => p.2.all fun r => r.getD c .null == .null
+      if typeDivergent then "?\tSKIP" else
+      let dirs := keys.map (·.desc)
+      let le : Item → Item → Bool := itemLe dirs
+      -- items of every partition that pass the filter
+      let mk (r : Row) : Option (Option Item) :=
+        match keep i2fNative wh r with
+        | .ok true => (do let k ← evalCells (keys.map (·.expr)) r; let s ← evalCells sel r; pure (some (k, s)))
+        | .ok false => some none
+        | _ => none
+      match rows.mapM mk with
+      | none => "?\tSKIP"
+      | some marked =>
+        let partsM := splitParts parts marked
+        let leaves : List (Nat × List Item) := partsM.map fun p => (p.1, p.2.filterMap id)
+        let items := leaves.flatMap (·.2)
+        let climit := combinedLimit limit offset
+        let constant := keys.any (·.isConst)
+        -- comparators per key, on items
+        let cmps : List (Item → Item → Bool) :=
+          (List.range keys.length).map fun i => fun a b =>
+            valLe (dirs.getD i false) (a.1.getD i .null) (b.1.getD i .null)
+        -- is the engine's answer determined?  (top-n breaks ties arbitrarily)
+        let determined := leaves.all fun p =>
+          !(useTopN climit p.1 keys.length constant)
+            || !(adjacentTie le ((isort le p.2).take (climit + 1)))
+        -- classifiers of the open findings (known_findings.jsonl)
+        let nanNull := ((List.range keys.length).map fun i => items.map fun it => it.1.getD i .null).any nanAndNull
+        -- a nullable arithmetic key whose partition is streamed in several chunks and sorted (not top-n): the sort
+        -- reads a ranking whose null map was not block-buffered
+        let keyArithCols := (keys.flatMap fun k => arithCols k.expr).eraseDups
+        let streamedNullableKey := (splitParts parts rows).any fun p =>
+          decide (p.1 > batchSize) && !(useTopN climit p.1 keys.length constant)
+            && keyArithCols.any fun c => p.2.any fun r => r.getD c .null == .null
+        -- a key column that is entirely NULL in one partition (typed Null there, cast to Val in the merge) next to
+        -- NULLs of a typed partition (in-band sentinel): the relative order of those tied NULL rows is not modelled
+        let keyCols := (keys.flatMap fun k => exprCols k.expr).eraseDups
+        let partRows := splitParts parts rows
+        let nullTyped := decide (partRows.length > 1) && keyCols.any fun c =>
+          partRows.any fun p => !p.2.isEmpty && p.2.all fun r => r.getD c .null == .null
+        let known := if nanNull then "\tC05-nan-null-tie"
+          else if streamedNullableKey then "\tC05-nullable-expr-key-streamed" else ""
+        let model : String :=
+          if !determined || nanNull || streamedNullableKey || nullTyped then "?" else
+          match leftTree leaves with
+          | none => "rows:[]"
+          | some t =>
+            match runQuery usortDet cmps constant limit offset t with
+            | some out => "rows:" ++ showRows (out.map (·.2))
+            | none => "panic"
+        let spec : String :=
+          if keys.isEmpty then "rows:" ++ showRows ((plainSpec items limit offset).map (·.2))
+          else if impl.startsWith "rows:" then
+            match parseRows (impl.drop 5).toString with
+            | some out =>
+              let outItems : List Item := out.map fun r => ((r.drop 1).take keys.length, r)
+              (judge le items outItems limit offset).toString
+            | none => "BAD unparsable"
+          else "BAD " ++ impl
+        model ++ "\t" ++ spec ++ known
+  | _, _, _, _, _, _, _ => "bad-op\tbad-op"
+
+def takeCount (l : List String) : Option (List String × List String) :=
+  match l with
+  | n :: rest => n.toNat?.map fun k => (rest.take k, rest.drop k)
+  | [] => none
+
+def step (line : String) : String :=
+  match splitTokens line with
+  | ["merge", d, l, r, lim, impl] => stepMerge d l r lim impl
+  | ["mkeep", ops, l, r, _impl] => stepMkeep ops l r
+  | ["part", d, l, r, lim, impl] => stepPart d l r lim impl
+  | ["subpart", d, g, l, r, _impl] => stepSubpart d g l r
+  | ["mpart", d, g, l, r, lim, _impl] => stepMpart d g l r lim
+  | ["heap", d, ks, vs, k, v, impl] => stepHeap d ks vs k v impl
+  | "mk" :: dirs :: lim :: k :: rest =>
+      (match k.toNat? with
+       | some k => stepMk dirs lim k (rest.take (2 * k)) (rest.getD (2 * k) "")
+       | none => "bad-op\tbad-op")
+  | "q" :: wh :: lim :: off :: parts :: rest =>
+      (match takeCount rest with
+       | some (sel, rest) =>
+         (match takeCount rest with
+          | some (keys, rest) =>
+            (match takeCount rest with
+             | some (cols, rest) => stepQuery wh lim off parts sel keys cols (rest.headD "")
+             | none => "bad-op\tbad-op")
+          | none => "bad-op\tbad-op")
+       | none => "bad-op\tbad-op")
+  | _ => "bad-op\tbad-op"
+
+end LM.DrvC05
+
+def main : IO Unit := LM.Proto.runDriver LM.DrvC05.step
